@@ -142,7 +142,7 @@ theorem coord_bytes_minimal (v : Int) (short same : Bool) (cur : List Nat)
 /-- **simple_glyph_roundtrip.**  Take ANY simple glyph with at least one contour whose bounding
 box and coordinates are `i16` values and which has at most 65535 points.  If the writer
 (`SimpleGlyph::write_into`) does not panic — i.e. (`write_simple_ok_iff`) fewer than 32767 contours,
-fewer than 65535 instruction bytes, a non-empty first contour and successive deltas representable in
+at most 65535 instruction bytes (`fix:` 60d64c5), a non-empty first contour and successive deltas representable in
 `i16` — then the generated reader parses the bytes, and
 * contour count, bounding box and instructions are the glyph's;
 * the end points are the format's (`endSpec`: index of each contour's last point);
@@ -170,7 +170,7 @@ theorem simple_glyph_roundtrip (g : SimpleGlyph) (bytes : List Nat)
   split at hw
   · cases hw
   · rename_i hlim
-    have hlim' : g.contours.length < 32767 ∧ g.instructions.length < 65535 := by omega
+    have hlim' : g.contours.length < 32767 ∧ g.instructions.length < 65536 := by omega
     have hnz : ¬ (g.contours.length = 0) := by
       intro e; exact hne (List.eq_nil_of_length_eq_zero e)
     simp only [hnz, ↓reduceIte] at hw
@@ -317,12 +317,12 @@ theorem deltas_ok_iff (pts : List Point) : ∀ lx ly,
       intro hh; exact h ⟨hh.1, hh.2.1⟩
 
 /-- **write_simple_ok_iff.**  Exactly which glyphs (with ≤ 65535 points) `SimpleGlyph::write_into`
-accepts without panicking: fewer than 32767 contours, fewer than 65535 instruction bytes, and — unless
+accepts without panicking: fewer than 32767 contours, at most 65535 instruction bytes, and — unless
 there are no contours at all, in which case nothing is written — a non-empty first contour
 (`cur as u16 - 1` underflows otherwise) and representable deltas. -/
 theorem write_simple_ok_iff (g : SimpleGlyph) (hmax : g.contours.flatten.length ≤ 65535) :
     (writeSimple g).isSome ↔
-      g.contours.length < 32767 ∧ g.instructions.length < 65535 ∧
+      g.contours.length < 32767 ∧ g.instructions.length < 65536 ∧
       (g.contours = [] ∨ (g.contours.head? ≠ some [] ∧ DeltasRepresentable 0 0 g.contours.flatten)) := by
   have hend : ∀ (cs : List (List Point)) (cur : Nat), cur + cs.flatten.length ≤ 65535 →
       ((endPts cur cs).isSome ↔ (cs = [] ∨ cur + (cs.head?.getD []).length ≠ 0)) := by
@@ -349,7 +349,7 @@ theorem write_simple_ok_iff (g : SimpleGlyph) (hmax : g.contours.flatten.length 
     simp only [Option.isSome_none, Bool.false_eq_true, false_iff]
     intro hh; omega
   · rename_i h
-    have h' : g.contours.length < 32767 ∧ g.instructions.length < 65535 := by omega
+    have h' : g.contours.length < 32767 ∧ g.instructions.length < 65536 := by omega
     split
     · rename_i h0
       have : g.contours = [] := List.eq_nil_of_length_eq_zero h0
@@ -521,7 +521,7 @@ most 65535 instruction bytes, so the `≤ 65535 points` hypothesis of `simple_gl
 implied by acceptance. -/
 theorem accepted_simple_le_65535_points (g : SimpleGlyph) (b : List Nat)
     (h : writeGlyph (.simple g) = .ok b) :
-    g.contours.flatten.length ≤ 65535 ∧ g.instructions.length < 65535 := by
+    g.contours.flatten.length ≤ 65535 ∧ g.instructions.length ≤ 65535 := by
   simp only [writeGlyph] at h
   split at h
   · cases h
@@ -594,6 +594,93 @@ theorem build_get_glyf (gs : List Glyph) (glyf loca : List Nat)
   · intro i hi
     rw [h3]
     exact getGlyf_built bs i hi h32
+
+/-! ## GlyfLocaBuilder histories: `add_glyph` failures in the middle -/
+
+/-- one step: a glyph that fails validation leaves the builder exactly as it was -/
+theorem add_err_leaves_state_unchanged (g : Glyph) (gs : List Glyph) (glyf loca : List Nat)
+    (h : addOutcome g = .err) : buildHistFrom (g :: gs) glyf loca = buildHistFrom gs glyf loca := by
+  unfold addOutcome at h
+  simp only [buildHistFrom]
+  split <;> simp_all
+
+/-- a history goes through (no panic) iff no single `add_glyph` call panics -/
+theorem buildHistFrom_isSome (gs : List Glyph) (glyf loca : List Nat) :
+    (buildHistFrom gs glyf loca).isSome ↔ ∀ g ∈ gs, addOutcome g ≠ .trap := by
+  induction gs generalizing glyf loca with
+  | nil => simp [buildHistFrom]
+  | cons g gs ih =>
+    simp only [buildHistFrom, addOutcome, List.mem_cons, forall_eq_or_imp]
+    split <;> simp_all [addOutcome]
+
+/-- **history = the accepted glyphs alone.**  The state reached by ANY interleaving of accepted and
+rejected `add_glyph` calls is the state reached by adding just the accepted glyphs, in order. -/
+theorem buildHistFrom_accepted (gs : List Glyph) (glyf loca : List Nat) (r : List Nat × List Nat)
+    (h : buildHistFrom gs glyf loca = some r) : buildGlyfLoca (accepted gs) glyf loca = some r := by
+  induction gs generalizing glyf loca with
+  | nil => simpa [buildHistFrom, accepted, buildGlyfLoca] using h
+  | cons g gs ih =>
+    simp only [buildHistFrom] at h
+    split at h
+    · rename_i b hb
+      have : accepted (g :: gs) = g :: accepted gs := by simp [accepted, addOutcome, hb]
+      rw [this]; simp only [buildGlyfLoca, hb]; exact ih _ _ h
+    · rename_i hb
+      have : accepted (g :: gs) = accepted gs := by simp [accepted, addOutcome, hb]
+      rw [this]; exact ih _ _ h
+    · cases h
+
+/-- a history without rejected glyphs is the plain `build` -/
+theorem buildHistFrom_all_accepted (gs : List Glyph) (glyf loca : List Nat)
+    (h : ∀ g ∈ gs, addOutcome g = .ok) : buildHistFrom gs glyf loca = buildGlyfLoca gs glyf loca := by
+  induction gs generalizing glyf loca with
+  | nil => rfl
+  | cons g gs ih =>
+    have hg := h g (by simp)
+    have ih' := fun glyf loca => ih glyf loca (fun g' hg' => h g' (by simp [hg']))
+    unfold addOutcome at hg
+    simp only [buildHistFrom, buildGlyfLoca]
+    split <;> simp_all
+
+theorem buildHist_all_accepted (gs : List Glyph) (h : ∀ g ∈ gs, addOutcome g = .ok) :
+    buildHist gs = build gs := buildHistFrom_all_accepted gs [] [0] h
+
+/-- **build_get_glyf_history.**  `build_get_glyf` for ANY history of `add_glyph` calls on one builder —
+accepted glyphs, `Glyph::Empty`, and glyphs rejected by validation (too many points / instruction
+bytes, composite without components) in any interleaving, the caller carrying on after each `Err` —
+provided no call panicked.  With `accepted gs` the glyphs whose call returned `Ok`, in order:
+* loca has one entry more than accepted glyphs (a rejected glyph gets no glyph id);
+* `glyf` is exactly the concatenation of the accepted glyphs' own (even-padded) bytes: a rejected
+  glyph occupies no bytes;
+* the format `LocaFormat::new` chooses is short iff `glyf` is shorter than 0x20000 bytes and the
+  written loca reads back as the offsets;
+* for every glyph id `i`, `get_glyf(i)` hands out exactly the bytes of the `i`-th ACCEPTED glyph at
+  their position (or `Ok(None)` iff those bytes are empty). -/
+theorem build_get_glyf_history (gs : List Glyph) (glyf loca : List Nat)
+    (hb : buildHist gs = some (glyf, loca)) (h32 : glyf.length < 4294967296) :
+    loca.length = (accepted gs).length + 1 ∧
+    (locaIsLong loca = false ↔ glyf.length < 0x20000) ∧
+    readLoca (writeLoca loca) (locaIsLong loca) = some loca ∧
+    ∃ bs : List (List Nat), (accepted gs).map writeGlyph = bs.map WriteResult.ok ∧ glyf = bs.flatten ∧
+      ∀ i (hi : i < bs.length), getGlyf loca glyf i =
+        if bs[i] = [] then GetGlyf.none else GetGlyf.bytes (prefixLen bs i) bs[i] :=
+  build_get_glyf (accepted gs) glyf loca (buildHistFrom_accepted gs [] [0] (glyf, loca) hb) h32
+
+/-- the outcomes the caller sees are `Ok` exactly for the accepted glyphs (as many `Ok`s as glyph ids) -/
+theorem histOutcomes_ok_count (gs : List Glyph) (h : ∀ g ∈ gs, addOutcome g ≠ .trap) :
+    histOutcomes gs = gs.map addOutcome ∧
+    ((gs.map addOutcome).filter (· = .ok)).length = (accepted gs).length := by
+  constructor
+  · induction gs with
+    | nil => rfl
+    | cons g gs ih =>
+      have hg := h g (by simp)
+      have := ih (fun g' hg' => h g' (by simp [hg']))
+      simp only [histOutcomes, List.map_cons]
+      first
+        | rw [this]
+        | (split <;> simp_all)
+  · simp [accepted, List.filter_map, Function.comp_def]
 
 /-- **built_simple_glyph_reads_back.**  The composition, spelled out for simple glyphs: if glyph `i`
 of an accepted sequence is a simple glyph with contours (i16 fields; acceptance itself bounds the
@@ -893,6 +980,21 @@ def tri : SimpleGlyph :=
 example : (build [.empty, .simple tri, .composite cg2, .simple ⟨0, 0, 0, 0, [], []⟩]).isSome = true := by
   decide +kernel
 example : (build [.empty, .simple tri]).map (fun r => r.2) = some [0, 0, 26] := by decide +kernel
+
+/-- a history with rejected glyphs in the middle (composites without components fail validation): the
+builder carries on, only the accepted glyphs get glyph ids and bytes, and the plain `build` of the same
+list gives up -/
+def noComps : CompositeGlyph := ⟨1, 2, 3, 4, [], []⟩
+example : addOutcome (.composite noComps) = .err := by decide +kernel
+example : (buildHist [.empty, .composite noComps, .simple tri, .composite noComps, .empty]).map (fun r => r.2)
+    = some [0, 0, 26, 26] := by decide +kernel
+example : accepted [.empty, .composite noComps, .simple tri, .composite noComps, .empty]
+    = [.empty, .simple tri, .empty] := by decide +kernel
+example : build [.empty, .composite noComps, .simple tri] = none := by decide +kernel
+example : buildHist [.empty, .composite noComps, .simple tri] = build [.empty, .simple tri] := by decide +kernel
+/-- a panic (an empty first contour underflows `cur as u16 - 1`) ends the history -/
+example : histOutcomes [.composite noComps, .simple ⟨0, 0, 0, 0, [[]], []⟩, .empty] = [.err, .trap] := by
+  decide +kernel
 
 /-- a "circle" of four quadratics whose on-curve points (including the START point) are all implied:
 the glyph keeps only the four off-curve points, and the draw starts at the re-created midpoint -/
